@@ -1016,6 +1016,18 @@ def roundtrip_checks(ctx, batch, recipe, root, el_index, el, stream, parsed):
                 raise
             ctx.count("reparse:lone-surrogate-constructor-raised(C06)")
             continue
+        except Exception as exc:   # noqa: BLE001
+            from bs4.exceptions import ParserRejectedMarkup
+            if not isinstance(exc, ParserRejectedMarkup):
+                raise
+            # the rendering is not accepted as a document at all (html.parser asserts on some malformed marked sections)
+            if run_oracle and reason is None:
+                ctx.violation("the rendering of a representable tree is rejected by the parser",
+                              case={"recipe": recipe, "element": el_index, "formatter": f, "op": "roundtrip"},
+                              observed=str(exc)[:300], stream=stream, extra={"rendered": text})
+            else:
+                ctx.count("reparse:rejected-by-parser:" + (reason or "parsed-input"))
+            continue
         text3 = soup3.decode(formatter=f)
         got3 = [struct(c) for c in soup3.contents]
         case = {"recipe": recipe, "element": el_index, "formatter": f, "op": "roundtrip"}
